@@ -6,7 +6,7 @@ import z3
 import msym
 from common import REPO, run_replay
 from fixedlib import OPTS, VC_A, key_name, mk_config, mk_data, mk_fixed, struct_of
-from mirsym.values import Agg, Box, Opaque, Ref, SMap, SString, SVec, bv, is_sym, simp
+from mirsym.values import Agg, Box, Opaque, Ref, SMap, SString, SVec, bv, deep_copy, is_sym, simp
 from msym import model_string, model_value
 from obl_fixed import fm_field, seq_eq, zb
 from obl_phonetic import eval_clauses
@@ -291,6 +291,141 @@ def make_history(shape):
     return build, on_path
 
 
+def make_ffi_ownership(shape):
+    """The context functions of the C interface from MIR (`riti_context_new_with_config`, `riti_context_update_engine`, `riti_get_suggestion_for_key`,
+    `riti_context_backspace_event`): after the call returns, the caller's Config object is the caller's again - it may be freed, reused or
+    changed. Modelled by overwriting every field of the caller's object in place; the configuration the context hands to the next event
+    must still be the one it was given."""
+    seq = shape["layouts"]
+
+    def build(st, it):
+        prog = it.p
+        order = prog.structs["Config"]
+        cfgs, snaps = [], []
+        for i, l in enumerate(seq):
+            vals = {"layout": SString([ord(c) for c in LAYOUTS[l]]), "database_dir": Opaque("PathBuf", ("db",)), "user_dir": Opaque("PathBuf", ("user",))}
+            for o in OPTS:
+                vals[o] = st.sym_bool("f%d_%s" % (i, o))
+            c = struct_of(prog, "Config", vals)
+            cfgs.append(c)
+            snaps.append(deep_copy(c))
+        calls, toks = [], []
+        data = mk_data(prog, st)
+        from mirsym.values import UNIT
+
+        def deref(v):
+            return v.get() if isinstance(v, Ref) else v
+
+        def mk(kind):
+            def f(it2, args, callee):
+                t = MethodTok(kind, "".join(chr(x) for x in deref(args[0]).fields[order.index("layout")].elems), len(calls))
+                toks.append(t)
+                return t
+            return f
+
+        def ev(name, cfg_arg):
+            def f(it2, args, callee):
+                cfg = deref(args[cfg_arg]) if cfg_arg is not None else None
+                rec = dict(name=name, cfg=deep_copy(cfg) if cfg is not None else None)
+                calls.append(rec)
+                if name in ("get_suggestion", "backspace_event"):
+                    sug = Agg("adt:Suggestion", prog.enums["Suggestion"]["Single"], [None, None])
+                    fo = prog.enum_fields[("Suggestion", "Single")]
+                    sug.fields[fo.index("suggestion")] = SString([0x41])
+                    sug.fields[fo.index("ansi")] = False
+                    return sug
+                if name == "ongoing_input_session":
+                    return False
+                return UNIT
+            return f
+        it.env["overrides"] = {"PhoneticMethod::new": mk("PhoneticMethod"), "FixedMethod::new": mk("FixedMethod"), "Data::new": lambda it2, args, callee: data,
+                               "Method::get_suggestion": ev("get_suggestion", 5), "Method::backspace_event": ev("backspace_event", 3),
+                               "Method::candidate_committed": ev("candidate_committed", 2), "Method::update_engine": ev("update_engine", 1),
+                               "Method::ongoing_input_session": ev("ongoing_input_session", None), "Method::finish_input_session": ev("finish_input_session", None)}
+        st.ctx = dict(cfgs=cfgs, snaps=snaps, calls=calls, shape=shape)
+
+        def clobber(c):
+            # what a freed / reused / re-set object looks like to anyone still pointing at it
+            for o in OPTS:
+                v = c.fields[order.index(o)]
+                c.fields[order.index(o)] = simp(z3.Not(v)) if is_sym(v) else (not v)
+            c.fields[order.index("layout")] = SString([ord(ch) for ch in "/freed"])
+
+        def fn(name):
+            return prog.find_fn(name)
+
+        def run():
+            ctxp = it.call_function(fn("riti_context_new_with_config"), [Ref([cfgs[0]], 0)])
+            clobber(cfgs[0])
+            keys = []
+            for i in range(len(seq)):
+                if i > 0:
+                    it.call_function(fn("riti_context_update_engine"), [ctxp, Ref([cfgs[i]], 0)])
+                    clobber(cfgs[i])
+                n0 = len(calls)
+                it.call_function(fn("riti_get_suggestion_for_key"), [ctxp, VC_A, 0, 0])
+                it.call_function(fn("riti_context_backspace_event"), [ctxp, False])
+                keys.append(calls[n0:])
+            return keys
+        return run
+
+    def on_path(st, it, out):
+        prog = it.p
+        c = st.ctx
+        order = prog.structs["Config"]
+        model = st.get_model()
+
+        def inputs(m):
+            return dict(layouts=[LAYOUTS[l] for l in seq], family="ffi")
+
+        def pred(m):
+            return dict(panic=out[1].message) if out[0] == "panic" else dict(ok=True)
+        if out[0] == "panic":
+            return [dict(kind="violation", clause="no_panic", inputs=inputs(model), predicted=pred(model))]
+
+        def cfg_eq(a, b):
+            same = [simp(zb(a.fields[order.index(o)]) == zb(b.fields[order.index(o)])) for o in OPTS]
+            la, lb = a.fields[order.index("layout")].elems, b.fields[order.index("layout")].elems
+            same.append(seq_eq(la, lb) if len(la) == len(lb) else z3.BoolVal(False))
+            return z3.And(same)
+        oks = []
+        for i, recs in enumerate(out[1]):
+            evs = [r for r in recs if r["cfg"] is not None]
+            if not evs:
+                oks.append(z3.BoolVal(False))
+            for r in evs:
+                oks.append(cfg_eq(r["cfg"], c["snaps"][i]))
+        clauses = [("context_keeps_its_own_copy_of_the_configuration", z3.And(oks) if oks else False), ("cover:ffi_context", True)]
+        return eval_clauses(st, clauses, lambda cn, m: dict(kind="violation", clause=cn, inputs=inputs(m), predicted=pred(m)))
+    return build, on_path
+
+
+def ffi_ownership_native():
+    """Native: life cycles through the exported functions in which the caller frees its Config right after handing it over (and the freed
+    block is reused), every read-out compared with a Rust-API context created with the same configuration and driven by the same events."""
+    from obl_assembly import char_keys
+    keys = char_keys()
+    lay = {"Key_a_Normal": "ক", "Key_m_Normal": "ম", "Key_i_Normal": "ি"}
+    scs = []
+
+    def cfg(l, sug=True):
+        o = {"phonetic_suggestion": sug, "fixed_suggestion": sug, "english": True}
+        return {"layout": "avro_phonetic", "database": REPO + "/data", "opts": o} if l == "P" else {"layout_json": lay, "database": REPO + "/data", "opts": o}
+    for l0 in ("P", "F"):
+        for l1 in (None, "P", "F"):
+            events = [{"key": keys[ch], "sel": 0} for ch in "ami"] + [{"finish": True}]
+            if l1 is not None:
+                events += [{"update": cfg(l1, sug=(l0 != l1))}] + [{"key": keys[ch], "sel": 0} for ch in "ami"] + [{"backspace": False}, {"finish": True}]
+            scs.append({"steps": [{"op": "ffi_cycle", "config": cfg(l0), "events": events, "early_config_free": True, "warmups": 0}]})
+    res = run_replay(scs)
+    for sc, r in zip(scs, res):
+        x = r["results"][0]
+        if r.get("crashed") or "panic" in x or x.get("mismatches"):
+            what = x.get("abort") or x.get("panic") or "; ".join(x.get("mismatches", [])[:3])
+            return sc, x, "life cycle through the C interface with the caller's Config freed (and its memory reused) right after riti_context_new_with_config / riti_context_update_engine returned: %s" % what
+    return None
+
+
 class FileBytes(SVec):
     """What fs::read returns in the data obligation: the bytes of the file at `path` (never looked into)."""
     __slots__ = ("path",)
@@ -529,7 +664,12 @@ def obl_context(check, thorough=False, budget_s=None):
                                          method="history shapes: the two method constructors, Data::new and the methods' event functions are recording oracles",
                                          configurations="every option of every configuration an independent symbol")
 
+    for seq in ("P", "A", "PA", "AP", "AB", "PP"):
+        shapes.append(dict(layouts=seq, family="ffi"))
+
     def make(shape):
+        if shape["family"] == "ffi":
+            return make_ffi_ownership(shape)
         return make_history(shape) if shape["family"] == "history" else make_context(shape)
     records, errors, summ = msym.run_shapes(check, "context_layer", shapes, make, budget_s=budget_s)
     vio = [r for r in records if r["kind"] == "violation" and (getattr(check, "only_clauses", None) is None or r["clause"] in check.only_clauses)]
@@ -538,18 +678,27 @@ def obl_context(check, thorough=False, budget_s=None):
     if errors:
         check.obligation(name, "mirsym", "inconclusive", "executor gave up: " + "; ".join(sorted(set(errors))[:3]))
         return
-    if not {"cover:update", "cover:context_event", "cover:history"} <= covers:
+    if not {"cover:update", "cover:context_event", "cover:history", "cover:ffi_context"} <= covers:
         check.obligation(name, "mirsym", "inconclusive", "vacuity: missing reachability witnesses")
         return
     if not vio:
         check.obligation(name, "mirsym", "held", "%d paths; borrows released, configuration replaced, method object of the configured kind and layout and new or refreshed "
                          "after every update, later events get the new configuration and the context's data" % summ["paths"])
         return
-    found = context_native(vio)
-    if found is None:
-        check.obligation(name, "mirsym", "inconclusive", "counterexample not re-found natively: %s (%s)" % (json.dumps(vio[0]["inputs"], ensure_ascii=False)[:300], vio[0]["clause"]))
-        return
-    sc, obs, what = found
-    check.stats["traces_validated"] += 1
-    st = check.finding("context layer: " + vio[0]["clause"], what, dict(scenario=sc, observed=obs, solver_counterexample=vio[0]["inputs"]))
-    check.obligation(name, "mirsym", st, "%d paths; %d counterexample models" % (summ["paths"], len(vio)))
+    status = "held"
+    worst = {"held": 0, "known": 1, "inconclusive": 2, "violated": 3}
+    groups = {}
+    for v in vio:
+        groups.setdefault(v["clause"], []).append(v)
+    for clause, vs in sorted(groups.items()):
+        found = ffi_ownership_native() if vs[0]["inputs"].get("family") == "ffi" else context_native(vs)
+        if found is None:
+            check.obligation(name + ":" + clause, "mirsym", "inconclusive", "counterexample not re-found natively: %s (%s)" % (json.dumps(vs[0]["inputs"], ensure_ascii=False)[:300], clause))
+            st = "inconclusive"
+        else:
+            sc, obs, what = found
+            check.stats["traces_validated"] += 1
+            st = check.finding("context layer: " + clause, what, dict(scenario=sc, observed=obs, solver_counterexample=vs[0]["inputs"]))
+        if worst[st] > worst[status]:
+            status = st
+    check.obligation(name, "mirsym", status, "%d paths; %d counterexample models" % (summ["paths"], len(vio)))
